@@ -28,6 +28,13 @@ func c17Object(g *Gen) ap.Item {
 	}
 	rt := structTypes[g.Intn(13)]
 	pv := reflect.New(rt)
+	if g.Chance(1, 2) {
+		// the other instants and properties of the object are populated too: the ordering must not look at them
+		o := DefaultOpts()
+		o.Depth = 0
+		o.ValueForms = false
+		pv = reflect.ValueOf(g.Struct(rt, o))
+	}
 	pv.Elem().FieldByName("Published").Set(reflect.ValueOf(g.Time(true)))
 	pv.Elem().FieldByName("Updated").Set(reflect.ValueOf(g.Time(true)))
 	if g.Chance(1, 2) {
